@@ -19,7 +19,7 @@ func (c02) Meta() fw.Meta {
 	for m := 1; m <= 6; m++ {
 		obl = append(obl, "stored_"+model.MethodNames[m], "skipxff_"+model.MethodNames[m], "skipzero_"+model.MethodNames[m])
 	}
-	obl = append(obl, "chain_depth2", "chain_depth3", "chain_stopped_early", "negative_max_min", "first_ne_last", "ratio_eq_points", "ring_barely_longer", "xff_exact_boundary_pass", "ops_compared")
+	obl = append(obl, "chain_depth2", "chain_depth3", "chain_stopped_early", "negative_max_min", "first_ne_last", "ratio_eq_points", "ring_barely_longer", "xff_exact_boundary_pass", "ops_compared", "histories_with_nan_and_inf_values")
 	return fw.Meta{
 		ID: "C02",
 		Rule: "case = (2-4 level layout emphasising N_fine==ratio, N_fine==ratio+1 and coarser rings barely longer than the finer one; method; xff in {0,1/4,1/2,3/4,1} or random; clock; 10-30 writes: single/batch to named or best archives, lap collisions, duplicates, either sign, +-0); " +
@@ -70,6 +70,9 @@ func slotsEqualAgg(method int, a, b model.Slot) bool {
 	if (method == 4 || method == 5) && a.T == b.T && a.Val() == 0 && b.Val() == 0 {
 		return true // max/min of {+0,-0}: either zero
 	}
+	if a.T == b.T && a.Val() != a.Val() && b.Val() != b.Val() {
+		return true // NaN results: the payload is not part of the property
+	}
 	return false
 }
 
@@ -94,6 +97,12 @@ func (c02) Run(c *fw.Ctx) {
 	}
 	defer s.close()
 
+	// stored NaNs and infinities are stored values like any other for average/sum/last/first (IEEE arithmetic in time
+	// order; huge finite values overflow to them on their own); max/min of NaN is not specified and stays excluded
+	hostile := c.Index%4 == 3 && (l.Method == 1 || l.Method == 2 || l.Method == 3 || l.Method == 6)
+	if hostile {
+		c.Count("histories_with_nan_and_inf_values", 1)
+	}
 	var ops []Op
 	nops := 10 + r.Intn(21)
 	stored, skipped := false, false
@@ -109,7 +118,7 @@ func (c02) Run(c *fw.Ctx) {
 			}
 		}
 		if op.Kind == "" {
-			op = genOp(r, l, s.now, histOpts{noReopen: true, maxBatch: 30})
+			op = genOp(r, l, s.now, histOpts{noReopen: true, maxBatch: 30, hostileValues: hostile})
 		}
 		if op.Kind == "advance" {
 			s.now += op.Delta
@@ -247,4 +256,50 @@ func (c02) Run(c *fw.Ctx) {
 	if c.Index < 64 {
 		c.Sample(fw.J{"layout": l.String(), "clock": now, "ops": summarizeOps(ops, 6), "note": fmt.Sprintf("%d ops", len(ops))})
 	}
+}
+
+// propagationMismatch recomputes, from the actual state before a write op and the actual post-state of the directly
+// written (finest) archive, what every coarser archive must hold afterwards (the C02 oracle) and compares it with the
+// actual post-state. It returns dontCare=true when the op falls into the float32/rational xFilesFactor band.
+func propagationMismatch(l model.Layout, pre, post model.Raw, op Op, now int64) (dontCare bool, archive, slot int, want, got model.Slot, found bool) {
+	state := pre.Clone()
+	var routed [][]model.PtBits
+	if op.Kind == "single" {
+		routed = make([][]model.PtBits, len(l.Archs))
+		target := op.Arch
+		if target < 0 {
+			target = model.BestArchive(l, int64(op.Pt.T), now)
+		}
+		routed[target] = []model.PtBits{op.Pt}
+	} else {
+		routed = model.RouteBatch(l, op.Pts, op.Arch, now)
+	}
+	info := &model.PropagateInfo{}
+	first := true
+	firstWritten := -1
+	for i := range l.Archs {
+		if len(routed[i]) == 0 {
+			continue
+		}
+		touched := model.ApplyDirect(state[i], l.Archs[i], routed[i])
+		if first {
+			state[i] = append([]model.Slot(nil), post[i]...)
+			first = false
+			firstWritten = i
+		}
+		if len(model.Propagate(l, state, i, touched, info)) > 0 {
+			return true, 0, 0, model.Slot{}, model.Slot{}, false
+		}
+	}
+	for i := range l.Archs {
+		if i <= firstWritten {
+			continue
+		}
+		for d := range state[i] {
+			if !slotsEqualAgg(l.Method, state[i][d], post[i][d]) {
+				return false, i, d, state[i][d], post[i][d], true
+			}
+		}
+	}
+	return false, 0, 0, model.Slot{}, model.Slot{}, false
 }
